@@ -155,4 +155,248 @@ theorem evalItem_node (c : Ctx) (td : TermDef) (g : Option T) (s : T) (p : Str) 
         hasKey_false_of_not_mem (hnm kSet (by simp))]
       simp only [Bool.false_eq_true, if_false, hhead]
 
+/-! ### well-formedness of the JSON written -/
+
+theorem mem_keys_alUpd {α : Type} (d : α) (f : α → α) (l : List (Str × α)) (k x : Str) :
+    x ∈ (alUpd d f l k).map (·.1) ↔ x ∈ l.map (·.1) ∨ x = k := by
+  induction l with
+  | nil => simp [alUpd]
+  | cons e l ih =>
+    obtain ⟨a, b⟩ := e
+    simp only [alUpd]
+    by_cases h : a = k
+    · subst h; simp only [if_true, List.map_cons, List.mem_cons]
+      constructor
+      · rintro (h | h)
+        · exact Or.inl (Or.inl h)
+        · exact Or.inl (Or.inr h)
+      · rintro ((h | h) | h)
+        · exact Or.inl h
+        · exact Or.inr h
+        · exact Or.inl h
+    · simp only [if_neg h, List.map_cons, List.mem_cons, ih]
+      constructor
+      · rintro (h | h | h)
+        · exact Or.inl (Or.inl h)
+        · exact Or.inl (Or.inr h)
+        · exact Or.inr h
+      · rintro ((h | h) | h)
+        · exact Or.inl h
+        · exact Or.inr (Or.inl h)
+        · exact Or.inr (Or.inr h)
+
+theorem nodup_keys_alUpd {α : Type} (d : α) (f : α → α) (l : List (Str × α)) (k : Str)
+    (h : (l.map (·.1)).Nodup) : ((alUpd d f l k).map (·.1)).Nodup := by
+  induction l with
+  | nil => simp [alUpd]
+  | cons e l ih =>
+    obtain ⟨a, b⟩ := e
+    simp only [List.map_cons, List.nodup_cons] at h
+    simp only [alUpd]
+    by_cases hk : a = k
+    · subst hk; simp only [if_true, List.map_cons, List.nodup_cons]; exact h
+    · simp only [if_neg hk, List.map_cons, List.nodup_cons]
+      refine ⟨?_, ih h.2⟩
+      rw [mem_keys_alUpd]
+      rintro (h' | h')
+      · exact h.1 h'
+      · exact hk h'
+
+theorem wfList_of_F2 {label : β → Str} {c : Ctx} {k p : Str} {js : List Json} {ts : List (Tree β)}
+    (h : F2 (ValRel label c k p) js ts) : wfList js = true := by
+  induction h with
+  | nil => rfl
+  | cons h1 _ ih => simp [wfList, h1.1, ih]
+
+theorem wfMembers_props {label : β → Str} {c : Ctx} {props : List (Str × List Json)}
+    {groups : List (Str × Str × List (Tree β))} (h : GR label c props groups) :
+    wfMembers (propMembers props) = true := by
+  induction h with
+  | nil => rfl
+  | @cons pj gr props' groups' hg _ ih =>
+    obtain ⟨pk, pvs⟩ := pj
+    obtain ⟨h1, h2, h3, h4⟩ := hg
+    simp only at h3 h4
+    have hw := wfList_of_F2 h4
+    cases pvs with
+    | nil => exact absurd rfl h3
+    | cons v vs =>
+      cases vs with
+      | nil =>
+        simp only [wfList, Bool.and_true] at hw
+        simp only [propMembers, List.filterMap_cons, wfMembers, hw, Bool.true_and]
+        exact ih
+      | cons v2 vs2 =>
+        simp only [propMembers, List.filterMap_cons, wfMembers, Json.wf, hw, Bool.true_and]
+        exact ih
+
+theorem obj_props_wf {label : β → Str} {c : Ctx} {props : List (Str × List Json)}
+    {groups : List (Str × Str × List (Tree β))} (h : GR label c props groups) (hn : (props.map (·.1)).Nodup) :
+    (Json.obj (propMembers props)).wf = true := by
+  simp only [Json.wf, (propMembers_keys h).1, wfMembers_props h, Bool.and_true, decide_eq_true_eq]
+  exact hn
+
+/-! ### the induction over tagged statements -/
+
+section Induction
+variable (E : Enc) (label : β → Str) (c : Ctx) (U names : List Str) (bs : Option Str)
+
+/-- one step of `groupByKey` -/
+def gstep (acc : List (Str × Str × List (Tree β))) (e : Str × Str × Tree β) : List (Str × Str × List (Tree β)) :=
+  alUpd (e.2.1, []) (fun x => (x.1, x.2 ++ [e.2.2])) acc e.1
+
+theorem groupByKey_eq (kps : List (Str × Str × Tree β)) : groupByKey kps = kps.foldl gstep [] := rfl
+
+def PS (x : TStmt β) : Prop :=
+  (∀ used0, ∀ q ∈ used0, q ∈ (buildStmt E label (untag x) used0).2.2) ∧
+  (∀ used0, (∀ q ∈ (buildStmt E label (untag x) used0).2.2, q ∈ U) → (∀ po ∈ tpos x, POk E U names bs po) →
+    (buildStmt E label (untag x) used0).1 = (stmtTree E x).1 ∧
+    KeyOK c (stmtTree E x).1 (stmtTree E x).2.1 ∧
+    ValRel label c (stmtTree E x).1 (stmtTree E x).2.1 (buildStmt E label (untag x) used0).2.1 (stmtTree E x).2.2)
+
+def PL (l : List (TStmt β)) : Prop :=
+  (∀ props used0, ∀ q ∈ used0, q ∈ (buildStmts E label (untags l) props used0).2) ∧
+  (∀ props used0, (props.map (·.1)).Nodup → ((buildStmts E label (untags l) props used0).1.map (·.1)).Nodup) ∧
+  (∀ props groups used0, (∀ q ∈ (buildStmts E label (untags l) props used0).2, q ∈ U) →
+    (∀ po ∈ tposL l, POk E U names bs po) → GR label c props groups →
+    GR label c (buildStmts E label (untags l) props used0).1 ((stmtTrees E l).foldl gstep groups))
+
+end Induction
+
+section Steps
+variable {E : Enc} {label : β → Str} {c : Ctx} {U names : List Str} {bs : Option Str}
+
+theorem literalValue_shape (E : Enc) (lex dt : Str) (lang : Option Str)
+    (hnn : (dt == xsdInteger || dt == xsdDouble || dt == xsdBoolean) = false) :
+    (literalValue E lex dt lang).1.wf = true ∧ notArr (literalValue E lex dt lang).1 ∧
+      (literalValue E lex dt lang).2 = (if dt = xsdString then [] else pfxOf E dt) := by
+  simp only [Bool.or_eq_false_iff, beq_eq_false_iff_ne] at hnn
+  obtain ⟨⟨h1, h2⟩, h3⟩ := hnn
+  unfold literalValue
+  by_cases hs : dt = xsdString
+  · simp only [hs, if_true]
+    exact ⟨rfl, (fun xs e => by cases e), trivial⟩
+  · simp only [hs, if_false, h1, h2, h3, false_and, Bool.false_and, Bool.or_self, Bool.false_eq_true, decide_false]
+    split
+    · exact ⟨by simp +decide [Json.wf, wfMembers], (fun xs e => by cases e), vocab_pfx E dt⟩
+    · exact ⟨by simp +decide [Json.wf, wfMembers], (fun xs e => by cases e), vocab_pfx E dt⟩
+
+theorem PS_obj (hc : GoodCtx E bs U names c) (hbase : bs.isSome = E.base.isSome) (hne : ∀ b, label b ≠ [])
+    (p : Str) (o : Term β) : PS E label c U names bs (.obj p o) := by
+  constructor
+  · intro used0 q hq
+    cases o with
+    | iri v =>
+      simp only [untag, buildStmt]
+      split <;> simp [hq]
+    | bnode b => simp [untag, buildStmt, hq]
+    | lit lex dt lang => simp [untag, buildStmt, hq]
+  · intro used0 hU hpo
+    have hP := hpo (p, o) (by simp [tpos])
+    cases o with
+    | iri v =>
+      obtain ⟨hvG, hvrel⟩ := hP.iri v rfl
+      by_cases hp : p = rdfType
+      · subst hp
+        simp only [untag, buildStmt, ↓reduceIte, stmtTree, encKey] at hU ⊢
+        have hv : IriOK E U names v := iriOK_of hvG (fun q hq => hU q (by simp [vocab_pfx, hq]))
+        refine ⟨trivial, by simp [KeyOK], rfl, ?_⟩
+        rw [if_pos rfl]
+        exact ⟨_, v, rfl, rfl, by rw [(vocabForm hc hv).2.2 true true]; simp [nodeRef, hvG.abs]⟩
+      · simp only [untag, buildStmt, hp, ↓reduceIte, stmtTree, encKey] at hU ⊢
+        have hv : IriOK E U names v := iriOK_of hvG (fun q hq => hU q (by simp [doc_pfx, hq]))
+        have hpI : IriOK E U names p := iriOK_of hP.pred (fun q hq => hU q (by simp [vocab_pfx, hq]))
+        have hkne : (compactVocabIRI E p).1 ≠ kType := ne_of_head (by decide) (vocabForm hc hpI).1
+        refine ⟨trivial, by unfold KeyOK; rw [if_neg hkne]; exact classifyKey_vocab hc hpI, ?_, ?_⟩
+        · simp +decide [Json.wf, wfMembers]
+        · rw [if_neg hkne]
+          refine ⟨(fun xs e => by cases e), fun g s n => ?_⟩
+          rw [evalItem_iriObj hc hbase hv hvrel g s p n]
+          simp [denVal, outTerm, Term.map]
+    | bnode b =>
+      simp only [untag, buildStmt, stmtTree, encKey] at hU ⊢
+      have hpI : IriOK E U names p := iriOK_of hP.pred (fun q hq => hU q (by simp [vocab_pfx, hq]))
+      have hkne : (compactVocabIRI E p).1 ≠ kType := ne_of_head (by decide) (vocabForm hc hpI).1
+      refine ⟨trivial, by unfold KeyOK; rw [if_neg hkne]; exact classifyKey_vocab hc hpI, ?_, ?_⟩
+      · simp +decide [Json.wf, wfMembers]
+      · rw [if_neg hkne]
+        refine ⟨(fun xs e => by cases e), fun g s n => ?_⟩
+        rw [evalItem_bnodeObj label hne c g s p b n]
+        simp [denVal, outTerm, Term.map]
+    | lit lex dt lang =>
+      obtain ⟨hnn, hdtG⟩ := hP.lit lex dt lang rfl
+      obtain ⟨hw, hna, hpf⟩ := literalValue_shape E lex dt lang hnn
+      simp only [untag, buildStmt, stmtTree, encKey] at hU ⊢
+      have hpI : IriOK E U names p := iriOK_of hP.pred (fun q hq => hU q (by simp [vocab_pfx, hq]))
+      have hkne : (compactVocabIRI E p).1 ≠ kType := ne_of_head (by decide) (vocabForm hc hpI).1
+      refine ⟨trivial, by unfold KeyOK; rw [if_neg hkne]; exact classifyKey_vocab hc hpI, hw, ?_⟩
+      rw [if_neg hkne]
+      refine ⟨hna, fun g s n => ?_⟩
+      rw [evalItem_litObj hc lex dt lang hP.wf hnn
+        (fun hs => iriOK_of hdtG (fun q hq => hU q (by rw [hpf, if_neg hs]; simp [hq]))) g s p n]
+      simp [denVal, outTerm, Term.map]
+
+theorem PS_anon (hc : GoodCtx E bs U names c) (b : β) (p : Str) (l : List (TStmt β))
+    (ih : PL E label c U names bs l) : PS E label c U names bs (.anon b p l) := by
+  obtain ⟨ih1, ih2, ih3⟩ := ih
+  constructor
+  · intro used0 q hq
+    simp only [untag, buildStmt, List.mem_append]
+    exact Or.inl (ih1 [] used0 q hq)
+  · intro used0 hU hpo
+    have hP := hpo (p, .bnode b) (by simp [tpos])
+    simp only [untag, buildStmt, stmtTree, encKey] at hU ⊢
+    have hpI : IriOK E U names p := iriOK_of hP.pred (fun q hq => hU q (by simp [vocab_pfx, hq]))
+    have hkne : (compactVocabIRI E p).1 ≠ kType := ne_of_head (by decide) (vocabForm hc hpI).1
+    have hgr := ih3 [] [] used0 (fun q hq => hU q (by simp [hq]))
+      (fun po hpo' => hpo po (by simp [tpos, hpo'])) F2.nil
+    have hnd := ih2 [] used0 (by simp)
+    refine ⟨trivial, by unfold KeyOK; rw [if_neg hkne]; exact classifyKey_vocab hc hpI, obj_props_wf hgr hnd, ?_⟩
+    rw [if_neg hkne]
+    refine ⟨(fun xs e => by cases e), fun g s n => ?_⟩
+    have hkeys := propMembers_keys hgr
+    rw [evalItem_node c _ g s p _ n (by rw [hkeys.1]; exact hkeys.2)]
+    have := evalMembers_props label c hgr g (.bnode (.fresh n)) false [] (n + 1)
+    rw [List.append_nil] at this
+    rw [this]
+    simp [andThen_some, evalMembers, denVal, denId, groupByKey_eq]
+
+theorem PL_nil : PL E label c U names bs ([] : List (TStmt β)) := by
+  refine ⟨?_, ?_, ?_⟩
+  · intro props used0 q hq; simpa [untags, buildStmts] using hq
+  · intro props used0 h; simpa [untags, buildStmts] using h
+  · intro props groups used0 _ _ h; simpa [untags, buildStmts, stmtTrees] using h
+
+theorem PL_cons (x : TStmt β) (xs : List (TStmt β)) (hx : PS E label c U names bs x)
+    (hxs : PL E label c U names bs xs) : PL E label c U names bs (x :: xs) := by
+  obtain ⟨hx1, hx2⟩ := hx
+  obtain ⟨h1, h2, h3⟩ := hxs
+  refine ⟨?_, ?_, ?_⟩
+  · intro props used0 q hq
+    simp only [untags, buildStmts]
+    exact h1 _ _ q (hx1 used0 q hq)
+  · intro props used0 hn
+    simp only [untags, buildStmts]
+    exact h2 _ _ (nodup_keys_alUpd _ _ _ _ hn)
+  · intro props groups used0 hU hpo hg
+    simp only [untags, buildStmts] at hU ⊢
+    obtain ⟨e1, e2, e3⟩ := hx2 used0 (fun q hq => hU q (h1 _ _ q hq)) (fun po h => hpo po (by simp [tposL, h]))
+    simp only [stmtTrees, List.foldl_cons]
+    apply h3 _ _ _ hU (fun po h => hpo po (by simp [tposL, h]))
+    rw [e1]
+    exact GR_step label c hg e2 e3
+
+/-- the induction: the property map built from the untagged statements is related to the groups of the
+    tagged statements -/
+theorem build_rel (hc : GoodCtx E bs U names c) (hbase : bs.isSome = E.base.isSome) (hne : ∀ b, label b ≠ [])
+    (l : List (TStmt β)) : PL E label c U names bs l := by
+  refine TStmt.rec_1 (motive_1 := fun x => PS E label c U names bs x)
+    (motive_2 := fun l => PL E label c U names bs l) ?_ ?_ ?_ ?_ l
+  · intro p o; exact PS_obj hc hbase hne p o
+  · intro b p l ih; exact PS_anon hc b p l ih
+  · exact PL_nil
+  · intro x xs hx hxs; exact PL_cons x xs hx hxs
+
+end Steps
+
 end RdfModel.Proofs.C10
